@@ -712,6 +712,9 @@ func (e *Engine) GuardedAccessFunctions(prop string) []*ssa.Function {
 				}
 			}
 		}
+		if fc := e.contractOf(f); fc != nil && fc.Inline {
+			continue // lock helpers marked `inline` are checked at every call site, in the caller's lock state
+		}
 		if found {
 			out = append(out, f)
 		}
